@@ -455,8 +455,16 @@ def eval_clause(E, clause, st, extra=None):
 def eval_single(E, clause, st, extra=None):
     """a spec expression denoting one value; int/bool/bytes results of several cases are merged with If"""
     cases, raise_conds = eval_value(E, clause, st, extra)
+    if not cases and not raise_conds:
+        # every case was pruned: the state itself is infeasible (an earlier pruning query had timed out and kept it).  Pruning only
+        # ever drops `unsat` paths, so evaluate again without pruning; whatever value results is read under an unsatisfiable pc
+        E.no_prune = True
+        try:
+            cases, raise_conds = eval_value(E, clause, st, extra)
+        finally:
+            E.no_prune = False
     if not cases:
-        raise Unsupported('spec expression has no value: %s' % clause)
+        raise Unsupported('spec expression has no value (it raises in every case): %s' % (clause if isinstance(clause, str) else ast.unparse(clause)))
     if len(cases) == 1:
         return cases[0][1]
     # merge
